@@ -342,6 +342,25 @@ def run(ctx):
                 break
         if len([v for v in ctx.violations if v['kind'] == 'ellipsis-enabled-relation']) > 2:
             break
+    # characters that merely LOOK like dots (one-character ellipsis, full-width / one-dot / two-dot leaders) or that have a
+    # compatibility decomposition are ordinary characters of a piece: only three ASCII full stops are the wildcard
+    lp = ['a', '\u2026', 'b\u2026', '\uff0e\uff0e\uff0e', '\u2025.', '\u2024\u2024\u2024', 'x', '\ufb01', 'fi', '\xb2', '2', ' tail']
+    lgots = sorted({''.join(t) for n_t in (1, 2, 3) for t in _it.product(lp, repeat=n_t)})
+    lwants = sorted({m.join(t) for t in _it.product(lp + [''], repeat=2) for m in ('...', ' ... ', '')} | set(lgots[:200]))
+    lwants = [t for t in lwants if t and t == t.strip()]
+    for w in lwants:
+        for g in lgots:
+            if g != g.strip():
+                continue
+            non += 1
+            exp = (g == w) or ('...' in w and spec_ellmatch(g, w))
+            if bool(checker.check_output(g, w, strict_on)) != exp:
+                ctx.violation('ellipsis-enabled-relation', {
+                    'what': "with ELLIPSIS on and every other leniency off check_output is %s, the wildcard relation says %s (dot-like characters)" % (not exp, exp),
+                    'got': g, 'want': w, 'theorem_or_correspondence': 'C06_ellipsis_iff lifted to check_output(+ELLIPSIS)'}, True)
+                break
+        if len([v for v in ctx.violations if v['kind'] == 'ellipsis-enabled-relation']) > 2:
+            break
     ctx.evaluations += non
     ctx.count('enabled_relation_pairs', non)
     # ---- end to end: the flag as doctests switch it (every directive spelling, inline and block), on real DocTest runs
